@@ -795,6 +795,31 @@ static void client_hello_variants(const char *target, int which, int auth, const
 		rl = put_hs_record(rec, version, TLS_handshake_client_hello, body, bl);
 		ol = replace_record(c2s, n, 0, rec, rl, out);
 		emit_variant(target, "variant_clienthello_manyexts", which, auth, out, ol);
+		bl = start;
+	}
+	/* (c) one variant per honest extension: that extension repeated (9 and 64 times) after the honest list */
+	if (exts) {
+		const uint8_t *e = exts;
+		size_t left = extslen;
+		int k = 0;
+		while (left >= 4) {
+			size_t xl = 4 + (((size_t)e[2] << 8) | e[3]);
+			int reps[2] = { 9, 64 }, r;
+			if (xl > left) break;
+			for (r = 0; r < 2; r++) {
+				size_t start = bl, el = 0, b2 = bl + 2;
+				char nm[64];
+				if (extslen + (size_t)reps[r] * xl > 7000) continue;
+				memcpy(body + b2, exts, extslen); b2 += extslen; el += extslen;
+				for (i = 0; i < (size_t)reps[r]; i++) { memcpy(body + b2, e, xl); b2 += xl; el += xl; }
+				body[start] = (uint8_t)(el >> 8); body[start + 1] = (uint8_t)el;
+				rl = put_hs_record(rec, version, TLS_handshake_client_hello, body, b2);
+				ol = replace_record(c2s, n, 0, rec, rl, out);
+				snprintf(nm, sizeof(nm), "variant_clienthello_ext%d_x%d", k, reps[r]);
+				emit_variant(target, nm, which, auth, out, ol);
+			}
+			e += xl; left -= xl; k++;
+		}
 	}
 }
 
